@@ -165,7 +165,8 @@ let run_e2e (v : variant) (toks : string list) : string =
   | l -> String.concat " " l
 
 (* ---- asynchronous bus and teardown (case kind ae2e): terminate events are held and delivered one at a time ---- *)
-let run_ae2e (v : variant) (toks : string list) : string =
+let run_ae2e (v : variant) (toks : string list) (impl : string list) : string =
+  let impl = Array.of_list impl in
   let show1 w t =
     let k = key_of_tok e2e_tuples.(t) in
     let ((ni, np), own) = e2e_snapshot w k in
@@ -183,6 +184,13 @@ let run_ae2e (v : variant) (toks : string list) : string =
       let aw' = a_step v aw (match op.[0] with
           | 'D' | 'Q' | 'S' -> ACreateI k | 'P' -> APadr k | 'V' -> ADeliver | 'X' -> APadt k | 'O' -> AOperI k
           | _ -> failwith ("bad ae2e op " ^ op)) in
+      (* one delivery = both handlers, started concurrently by the bus: either order is admissible *)
+      let aw' =
+        if op.[0] = 'V' then begin
+          let alt = a_step v aw ADeliverPI in
+          let theirs = let pos = List.length acc in if pos < Array.length impl then impl.(pos) else "" in
+          if show aw'.a_w t <> theirs && show alt.a_w t = theirs then alt else aw'
+        end else aw' in
       go aw' rest (show aw'.a_w t :: acc) in
   match go aworld0 toks [] with
   | [] -> "empty"
@@ -387,7 +395,7 @@ let () =
             else if String.length v >= 6 && String.sub v 0 6 = "NONLIN" then "rejected"
             else "malformed"
           | "e2e" :: rest -> run_e2e variant rest
-          | "ae2e" :: rest -> run_ae2e variant rest
+          | ("ae2e" | "rae2e") :: rest -> run_ae2e variant rest (if idx < Array.length impl then tokens impl.(idx) else [])
           | "rpppoe" :: rest -> run_restore true variant rest
           | "ripoe" :: rest -> run_restore ~halfopen_unclaimed:(vname = "pre_d2827a3") false variant rest
           | "ipoe" :: rest -> run_callers proto_ipoe rest (if idx < Array.length impl then tokens impl.(idx) else [])
